@@ -515,7 +515,7 @@ def run_target(target, repo=None, timeout_ms=QUICK_TIMEOUT_MS, tier='quick'):
     work = [[]]
     seen = 0
     # budget in CPU seconds of this worker (not wall-clock): the verdict does not depend on how busy the machine is
-    budget_s = getattr(target, 'time_budget_s', None) or (300 if tier == 'quick' else 2400)
+    budget_s = getattr(target, 'time_budget_s', None) or (900 if tier == 'quick' else 3600)
     cpu0 = time.process_time()
     while work:
         prefix = work.pop()
